@@ -148,24 +148,49 @@ def curated_caps(sets, fs):
 
 
 # ------------------------------------------------------------------------------------------------
-def check_C01(tier):
-    res = Result('C01', tier)
-    framework(res, ['C01_maximal_munch'])
-    fss = ['tc', 'sm']
+def engine_property(prop, tier, theorems, need, kernel_theorems, fss, modes, want, judge, rule, assumptions, trace=False):
+    res = Result(prop, tier)
+    framework(res, theorems)
     sets = ce.compiled_sets(tier, fss)
-    failing, drv = cert_stage(res, tier, ['dfa_ok', 'sim_ok'], [certs.TH_C01], 'C01', curated_caps(sets, 'tc'))
-    report_cert_failures(res, failing, drv, {'ok-item'})
-    mism = ce.run_k2(res, sets, fss, tier, modes=(0,), drv=drv)
-    want = {'ok-item', 'spec-ok-item', 'graph-differs'}
-    nm = report_k2(res, mism, sets, want, 'C01')
+    failing, drv = cert_stage(res, tier, need, kernel_theorems, prop, curated_caps(sets, fss[0]))
+    report_cert_failures(res, failing, drv, judge)
+    mism = ce.run_k2(res, sets, fss, tier, modes=modes, drv=drv)
+    nm = report_k2(res, mism, sets, want, prop)
     res.oblige(nm == 0)
     res.cov['disagreements_checked'] = len(mism)
-    res.cov['rule'] = ('every accepted definition of the repo / curated / random corpora: certificates dfa_ok+sim_ok '
-                       '(all 256 bytes + EOI from every paired state); K2: probes driving every graph state, each byte class boundary, '
-                       'self-loop run lengths 0..17, random token-biased inputs; Ok items (variant, span) compared')
-    res.assumptions += ['regex-level reading of a pattern language relies on regex-automata determinisation (modelled as data)',
-                        'K2 ties the emitted Rust + runtime to the executor model on the compiled corpus only']
-    return res.finish('./vcheck C01 --tier ' + tier)
+    res.cov['rule'] = rule
+    res.assumptions += assumptions
+    return res.finish('./vcheck %s --tier %s' % (prop, tier))
+
+
+ASSUME_ENGINE = ['regex-level reading of a pattern language relies on regex-automata determinisation (captured DFA is modelled as data)',
+                 'K2 ties the emitted Rust + runtime to the executor model on the compiled (curated + random) corpus only']
+RULE_ENGINE = ('every accepted definition of the repo / curated / seeded random corpora: certificates %s evaluated over all 256 bytes + EOI '
+               'from every paired (graph state, DFA state); K2: probes driving every graph state, every byte class boundary, EOI in every state, '
+               'self-loop run lengths 0..17 and around multiples of 8, random token-biased inputs with noise; compared: %s')
+
+
+def check_C01(tier):
+    return engine_property('C01', tier, ['C01_maximal_munch'], ['dfa_ok', 'sim_ok'], [certs.TH_C01], ['tc', 'sm'], (0,),
+                           {'ok-item', 'spec-ok-item', 'graph-differs'}, {'ok-item'},
+                           RULE_ENGINE % ('dfa_ok+sim_ok', 'Ok items (variant, span) and item kinds, per feature set, against the graph executor and the DFA-level specification'),
+                           ASSUME_ENGINE)
+
+
+def check_C02(tier):
+    return engine_property('C02', tier, ['C02_error_span', 'C02_stop_exact', 'C02_lv_is_live'], ['dfa_ok', 'sim_ok', 'exact_ok'],
+                           [certs.TH_C02], ['tc', 'sm'], (0,),
+                           {'err-end', 'spec-err-end'}, {'err-end'},
+                           RULE_ENGINE % ('dfa_ok+sim_ok+exact_ok (liveness ranks)', 'Err items: start, end (rounded by find_boundary for str), resumption point'),
+                           ASSUME_ENGINE + ['error *values* (Default / error callback) are covered by C13, not here'])
+
+
+def check_C03(tier):
+    return engine_property('C03', tier, ['C03_tiling', 'C03_none_absorbing', 'C03_fb_str_ok'], ['dfa_ok', 'sim_ok', 'exact_ok'],
+                           [certs.TH_C03], ['tc', 'sm'], (0,),
+                           {'tiling', 'spec-tiling', 'panic'}, {'tiling'},
+                           RULE_ENGINE % ('dfa_ok (no empty match)+sim_ok+exact_ok', 'span sequences: strictly increasing, contiguous modulo skips, final None with span len..len, None absorbing (3 further calls)'),
+                           ASSUME_ENGINE)
 
 
 def setup():
